@@ -170,3 +170,27 @@ Definition sys_tags (s : syscfg) (plats : list str) : sres :=
        | GSystemError => SSystemError
        | GCrash => SCrash
        end.
+
+(* ---------------------------------------------------------------- the default arguments of the three generators *)
+(* `platforms = list(platforms or platform_tags())`: an empty (falsy) platform list is replaced by the detected one;
+   `if not python_version: python_version = sys.version_info[:2]` (None or ());
+   generic_tags: `if not interpreter: interpreter = interpreter_name() + interpreter_version()` (None or "").
+   [defaults] = what those fallbacks read from the running interpreter. *)
+Record defaults := { d_plats : list str;            (* list(platform_tags()) *)
+                     d_sysver : pyver;              (* sys.version_info[:2] *)
+                     d_name : str;                  (* sys.implementation.name *)
+                     d_nodot : option str }.        (* sysconfig.get_config_var("py_version_nodot") *)
+Definition or_detected (ps detected : list str) : list str := match ps with [] => detected | _ :: _ => ps end.
+Definition pv_or_sys (o : option pyver) (sysver : pyver) : pyver := match o with Some v => v | None => sysver end.
+Definition sys_interp (d : defaults) : str := interpreter_name (d_name d) ++ interpreter_version (d_nodot d) (d_sysver d).
+Definition interp_or_sys (i : str) (d : defaults) : str := match i with [] => sys_interp d | _ :: _ => i end.
+(* cpython_tags(python_version=None|v, abis=None|list, platforms=None|list) *)
+Definition cpython_tags_d (d : defaults) (c : abicfg) (pv : option pyver) (abis : option (list str)) (ps : list str) : list tag :=
+  let v := pv_or_sys pv (d_sysver d) in
+  cpython_tags v (match abis with Some a => a | None => default_abis c v end) (or_detected ps (d_plats d)).
+(* compatible_tags(python_version=None|v, interpreter, platforms=None|list) *)
+Definition compatible_tags_d (d : defaults) (pv : option pyver) (interp : option str) (ps : list str) : list tag :=
+  compatible_tags (pv_or_sys pv (d_sysver d)) interp (or_detected ps (d_plats d)).
+(* generic_tags(interpreter=None|""|name, abis (explicit), platforms=None|list) *)
+Definition generic_tags_d (d : defaults) (interp : str) (abis : list str) (ps : list str) : list tag :=
+  generic_tags (interp_or_sys interp d) abis (or_detected ps (d_plats d)).
